@@ -475,6 +475,10 @@ def generate(rng, idx, tier, variant):
         while k_ > 0 and ops[k_ - 1]['op'] not in ('solve_t', 'solve_period', 'solve1', 'solve', 'poke', 'copy', 'add_variable', 'edit_endogenous', 'eval'):
             k_ -= 1
         ops.insert(k_, {'op': 'edit_check', 'obj': rng.randrange(2) if two else 0, 'how': rng.choice(['append', 'append', 'remove', 'assign']), 'k': rng.randrange(6)})
+    if rng.random() < 0.04:
+        # another, hand-written model class without hooks of its own is used first in the same program: what the library
+        # learns from it (at class or module level) is not this model's business
+        ops.insert(0, {'op': 'plain_first', 'obj': 0})
     spec.pop('_allow_huge', None)
     sched = {'spec': spec, 'ops': ops, 'np_err': np_err}
     if rng.random() < 0.1 and _no_numpy_warning_possible(sched):
@@ -876,6 +880,20 @@ def execute(schedule, ctx):
             endos[who] = want_
             ctx.log(step, 'edit_endogenous', list(want_))
             ctx.outcome('edit_endogenous', 'ok')
+            continue
+        if op['op'] == 'plain_first':
+            def _ev(self, t, **kw):
+                self._Y[t] = 0.5 * self._Y[t] + 1.0
+
+            Plain = type('Plain', (fsic.BaseModel,), {'ENDOGENOUS': ['Y'], 'EXOGENOUS': [], 'PARAMETERS': [], 'ERRORS': [], 'NAMES': ['Y'], 'CHECK': ['Y'], 'LAGS': 0, 'LEADS': 0, '_evaluate': _ev})
+            try:
+                Plain(range(3)).solve(failures='ignore')
+                fsic.BaseModel(range(2), strict=False)
+            except Exception:  # noqa: BLE001
+                pass
+            ctx.probe('history:another-hook-less-class-solved-first')
+            ctx.log(step, 'plain_first')
+            ctx.outcome('plain_first', 'ok')
             continue
         if op['op'] == 'edit_check':
             lst = m.check
